@@ -6,7 +6,7 @@
    modelled, Model/CharsetFind.v) and of the x/text
    decoders for exactly the calls the model makes (arguments are compared, a call outside the table
    poisons the run).  Encodings are identified by their canonical name. *)
-From ReqV Require Export Lib.Bytes Model.Charset Model.CharsetFind.
+From ReqV Require Export Lib.Bytes Model.Charset Model.CharsetFind Model.CharsetConfig.
 
 Inductive rkind := KRaw | KHeader | KSniff.
 Definition rkind_eqb (a b : rkind) : bool :=
@@ -35,7 +35,12 @@ Inductive c15_case :=
     (* observed on the real code *)
     (o_kind : rkind)                                  (* which reader autoDecodeResponseBody installed *)
     (o_calls : list call_obs)                         (* per Read: n, error, (detected, decodeReader != nil, len(peek)) *)
-    (o_out : out_obs).                                (* everything delivered *)
+    (o_out : out_obs)                                 (* everything delivered *)
+(* a configuration program over transports related by Clone, and for every transport x content type the
+   reader the real autoDecodeResponseBody installed afterwards *)
+| C15CfgCase
+    (ops : list cfg_op)
+    (probes : list (nat * bytes * ct_parse * (bytes * option bytes) * rkind)).
 
 Definition poison : bytes := bs "\POISON: call outside the oracle table\".
 
@@ -137,4 +142,12 @@ Definition c15_check (c : c15_case) : bool :=
       (* the delivered body as [read_all] (the function the theorems are about) computes it *)
       let '(out2, fin) := read_all ds dp fe sizes b in
       bytes_eqb out2 want && rerr_eqb fin (if fail then EFail else EEOF)
+  | C15CfgCase ops probes =>
+      let st := run_ops [dset_default] ops in
+      forallb (fun p =>
+                 let '(j, ct, tp, tl, k) := p in
+                 match decide_of (tbl_parse ct tp) (tbl_lookup tl) st j [] ct with
+                 | Some i => rkind_eqb (kind_of i) k
+                 | None => false
+                 end) probes
   end.
